@@ -249,6 +249,18 @@ Definition direct_reply_ran (infos : list pinfo) (root : N) (tr : trace) : bool 
                          | None => true end
                      | _ => false end) tr.
 
+(* the programs of the reply entry points invoked for DIRECT sub-messages of the program [root], in log order *)
+Definition direct_replies (infos : list pinfo) (root : N) (tr : trace) : list prog :=
+  flat_map (fun en => match en with
+                      | RCall n EReply _ _ _ _ _ _ =>
+                          match find_info n infos with
+                          | Some pi => if option_eqb N.eqb (pi_disp pi) (Some root) then [pi_prog pi] else []
+                          | None => [] end
+                      | _ => [] end) tr.
+(* process_response's fold: a later Some overrides (an empty one included), None never does *)
+Definition last_data (own : option bytes) (reps : list prog) : option bytes :=
+  fold_left (fun acc q => or_data (own_data q) acc) reps own.
+
 Definition p_c04 (st : step) : option N :=
   first_fail [
     (* 5: a successful top-level execute / sudo of a program: the returned events START with the entry-point
@@ -303,7 +315,20 @@ Definition p_c04 (st : step) : option N :=
             || obytes_eqb d (option_map encode_exec_resp (own_data p))
         | Ok [(ev, d)], TWasmSudo c p =>
             direct_reply_ran infos (match p with Prog n _ _ => n end) (st_trace st) || obytes_eqb d (own_data p)
-        | _, _ => true end)
+        | _, _ => true end);
+    (* 10: "the returned data is the data of the last reply that set data, otherwise the contract's own data": when every
+           reply handler invoked for a direct sub-message of the root program is a leaf, the data returned is the last
+           Some among the root's own data followed by the own data of those handlers in the order they ran
+           (an empty but present data overrides too; execute: wrapped) *)
+    (10, let infos := flat_op (st_op st) in
+         match st_outcome st, st_op st with
+         | Ok [(ev, d)], TExec _ (MExec c p _) =>
+             let reps := direct_replies infos (match p with Prog n _ _ => n end) (st_trace st) in
+             negb (forallb prog_leaf reps) || obytes_eqb d (option_map encode_exec_resp (last_data (own_data p) reps))
+         | Ok [(ev, d)], TWasmSudo c p =>
+             let reps := direct_replies infos (match p with Prog n _ _ => n end) (st_trace st) in
+             negb (forallb prog_leaf reps) || obytes_eqb d (last_data (own_data p) reps)
+         | _, _ => true end)
   ].
 
 (* ---------- C05: sender, own address, block, funds ---------- *)
@@ -397,7 +422,17 @@ Definition p_c13 (st : step) : option N :=
     (* 8: a well-formed leaf response of a successful top-level execute surfaces every attribute / event verbatim *)
     (8, match st_outcome st, st_op st with
         | Ok [(ev, d)], TExec _ (MExec c p _) => prog_malformed p || is_prefix_ev (leaf_events EExec c 0 p) ev
-        | _, _ => true end)
+        | _, _ => true end);
+    (* 9: "every other attribute key, value and event type is accepted": a program without sub-messages whose response
+          passes verify_response, run as the only message of a call (its entry is in the log: the body really ran),
+          makes the call succeed *)
+    (9, match st_op st with
+        | TExec _ (MExec _ p _) | TWasmSudo _ p =>
+            negb (prog_leaf p) || prog_malformed p ||
+            match find_call (match p with Prog n _ _ => n end) (st_trace st) with
+            | Some _ => ok
+            | None => true end
+        | _ => true end)
   ].
 
 (* ---------- driver: oracle on every step, then correspondence ---------- *)
